@@ -16,6 +16,55 @@ def install_vm():
     return ["nsl.VM.float -> ToReal for proxies", "nsl.VM.int -> truncation for proxies"]
 
 
+_builtin_isinstance = isinstance
+_PATCHED = set()
+
+
+def sym_isinstance(x, t):
+    """isinstance for the modules under analysis: a numeric proxy is an int (or float, or bool) like the value it stands for"""
+    tx = type(x)
+    if tx is SymNum:
+        return _builtin_isinstance(0.0 if x.isf else 0, t)
+    if tx is SymBool:
+        return _builtin_isinstance(True, t)
+    return _builtin_isinstance(x, t)
+
+
+_builtin_type = type
+
+
+class _TypeShimMeta(type):
+    def __instancecheck__(cls, obj):
+        return _builtin_isinstance(obj, _builtin_type)
+
+    def __call__(cls, *a, **kw):
+        if len(a) == 1 and not kw:
+            x = a[0]
+            tx = _builtin_type(x)
+            if tx is SymNum:
+                return float if x.isf else int
+            if tx is SymBool:
+                return bool
+            return tx
+        return _builtin_type(*a, **kw)
+
+
+class sym_type(metaclass=_TypeShimMeta):
+    """`type` for the modules under analysis: type(proxy) is the type of the value it stands for (`type(x) is int` tests)"""
+
+
+def install_isinstance():
+    """shadow `isinstance` in every loaded module of the package under analysis (defensive `assert isinstance(n, int)` checks would
+    otherwise fail on proxies); called at the start of every exploration, cheap when nothing new was imported"""
+    import sys
+    for name in [n for n in sys.modules if n.startswith("nsl") and n not in _PATCHED]:
+        m = sys.modules.get(name)
+        if m is not None and (name == "nsl" or name.startswith("nsl.")):
+            m.__dict__.setdefault("isinstance", sym_isinstance)
+            m.__dict__.setdefault("type", sym_type)
+        _PATCHED.add(name)
+
+
 def scan_type_tests(path, names=("int", "float")):
     """Proxies are neither int nor float: an isinstance/type test on those in the
     module under analysis would be mis-modelled.  Returns offending lines."""
